@@ -2,6 +2,7 @@
 
 use crate::runner::PropDef;
 
+pub mod c01;
 pub mod c02;
 pub mod c11;
 pub mod c15;
@@ -9,7 +10,7 @@ pub mod c16;
 pub mod c18;
 
 pub fn all() -> Vec<&'static PropDef> {
-    vec![&c02::PROP, &c11::PROP, &c15::PROP, &c16::PROP, &c18::PROP]
+    vec![&c01::PROP, &c02::PROP, &c11::PROP, &c15::PROP, &c16::PROP, &c18::PROP]
 }
 
 pub fn find(id: &str) -> Option<&'static PropDef> {
